@@ -32,6 +32,8 @@ type memConn struct {
 	yield   bool
 	// failWriteAt > 0: the k-th Write fails (nothing written) and so does every later one
 	failWriteAt int
+	// failFull: the failing write records its bytes and reports the full count together with the error
+	failFull bool
 }
 
 func newMemConn() *memConn {
@@ -96,6 +98,10 @@ func (c *memConn) write(p []byte) (int, error) {
 	}
 	if c.failWriteAt > 0 && c.writes+1 >= c.failWriteAt {
 		c.writes++
+		if c.failFull && c.writes == c.failWriteAt {
+			c.out = append(c.out, p...)
+			return len(p), errors.New("broken pipe")
+		}
 		return 0, errors.New("broken pipe")
 	}
 	c.out = append(c.out, p...)
